@@ -18,7 +18,7 @@ def hcfg(nlen, nvar, maxc, reslice="TRUE", memo="full", derive="TRUE"):
 def history_part(run, hz, thorough, rng):
     """Sequential side of C18 (History.tla): every history of <= 3 calls over (length class x data variant), each executed by a
     fresh process against the real library; every result must equal the solitary one (TraceHistory.tla)."""
-    nlen, nvar, maxc = (3, 2, 3)
+    nlen, nvar, maxc = (3, 2, 4) if thorough else (3, 2, 3)      # thorough: every history of up to four calls (1554 plans)
     r = vlib.tlc_ok(vlib.run_tlc("History", hcfg(nlen, nvar, maxc), workers=1, timeout=600), "History")
     run.add_tlc(r, "History NLen=%d NVar=%d MaxCalls=%d pure switches: every history, HistoryIndependent" % (nlen, nvar, maxc))
     plans, seen = [], set()
@@ -41,6 +41,9 @@ def history_part(run, hz, thorough, rng):
     if r2.violated or r2.rc != 0:
         raise vlib.InfraError("History: the in-place table should need three calls to show (two calls gave %s)" % r2.violated)
     run.configs.append({"config": "History, table derived in place, MaxCalls=2", "violates": None, "note": "histories of two calls do not expose it: three are generated"})
+    # histories of ANY length (pure settings, fixed numbers of length classes and data variants): inductive invariant "the memo
+    # holds only ideal values, the shared table is never dirty, the last result was ideal" discharged by Apalache
+    vlib.apalache_inductive(run, "HistoryApa", "CInitBig" if thorough else "CInitSmall", safety=("AlwaysIdeal",))
     # length classes: byte-aligned, not multiples of 64, two of them above 2^16 bits; two data variants each
     lens = [4104, 66008, 131080] if not thorough else [4104, 66008, 262152]
     classes = []
